@@ -312,11 +312,32 @@ pub fn run_child(spec: &crate::Spec) -> Report {
         "D" => (ClientCfg { prefix: "p".into(), ..Default::default() }, true, true, true, false),
         "E" => (ClientCfg { prefix: "p".into(), ..Default::default() }, true, false, true, false),
         "F" => (ClientCfg { prefix: "one".into(), ..Default::default() }, false, true, true, true),
+        "G" => (ClientCfg { prefix: "late".into(), ..Default::default() }, false, true, true, false),
         _ => (ClientCfg::default(), false, true, false, false),
     };
     let (gc, gs, gh) = build(&cfg, failing, with_handler);
     let (tc, ts, th) = build(&cfg, failing, with_handler);
     let mut second_sink = None;
+    let mut early_panics = 0;
+    if name == "G" {
+        // the macros are used (and panic) before any client is set; that must not stick
+        for _ in 0..2 {
+            if panic::catch_unwind(|| {
+                cadence_macros::statsd_count!("early", 1i64);
+            })
+            .is_err()
+            {
+                early_panics += 1;
+            }
+            if panic::catch_unwind(|| {
+                cadence_macros::statsd_gauge!("early", 1.5f64, "a" => "b");
+            })
+            .is_err()
+            {
+                early_panics += 1;
+            }
+        }
+    }
     if set {
         if cadence_macros::is_global_default_set() {
             let mut r = Report::new(&spec.raw);
@@ -357,6 +378,12 @@ pub fn run_child(spec: &crate::Spec) -> Report {
     if set != cadence_macros::is_global_default_set() {
         ctx.bad(&["C17", "C18"], "is-set-wrong", format!("is_global_default_set() = {} after {} set calls", !set, if set { "one or two" } else { "no" }));
     }
+    if name == "G" {
+        ctx.rep.flag("macros-used-before-set");
+        if early_panics != 4 {
+            ctx.bad(&["C17"], "no-panic-when-unset", format!("only {} of 4 macro calls made before any client was set panicked", early_panics));
+        }
+    }
     if set {
         ctx.rep.flag("global-client-set");
         if twice {
@@ -388,6 +415,27 @@ pub fn run_child(spec: &crate::Spec) -> Report {
     probe!(ctx, statsd_distribution, distribution_with_tags, 19, vec![4u64, 5], Val::VU64(vec![4, 5]));
     probe!(ctx, statsd_distribution, distribution_with_tags, 20, vec![1.25f64], Val::VF64(vec![1.25]));
     probe!(ctx, statsd_set, set_with_tags, 21, -3i64, Val::I64(-3));
+    // tags with an empty value, an empty key and a repeated key are passed through like any other
+    {
+        let row = &ROWS[0];
+        let odd: [(&str, &str); 3] = [("t1", ""), ("", "v2"), ("t1", "again")];
+        let g0 = ctx.global.sink.0.lock().unwrap().emits.len();
+        let r = panic::catch_unwind(|| {
+            cadence_macros::statsd_count!("key", 6i64, "t1" => "", "" => "v2", "t1" => "again");
+        });
+        ctx.rep.evaluations += 1;
+        if ctx.set {
+            let emits: Vec<String> = ctx.global.sink.0.lock().unwrap().emits[g0..].to_vec();
+            let steps: Vec<Step> = odd.iter().map(|(k, v)| Step::Tag(k.to_string(), v.to_string())).collect();
+            let vals = reffmt::values(row, &Val::I64(6)).unwrap();
+            let pieces = reffmt::expected(&ctx.cfg, row, "key", &vals, &reffmt::sections(&ctx.cfg, &steps));
+            if r.is_err() {
+                ctx.bad(&["C17", "C20"], "panic-when-set", "statsd_count! with empty / repeated tags panicked".into());
+            } else if emits.len() != 1 || reffmt::matches(&emits[0], &pieces).is_err() {
+                ctx.bad(&["C17", "C01"], "odd-tags-differ", format!("statsd_count!(\"key\", 6, \"t1\" => \"\", \"\" => \"v2\", \"t1\" => \"again\") emitted {:?}", emits));
+            }
+        }
+    }
     if set {
         // the global client is still the first one and still set
         if !cadence_macros::is_global_default_set() || cadence_macros::get_global_default().is_err() {
